@@ -27,6 +27,13 @@ BEHAVIOURS = {
     "all": ["{ if (PuN) { P2 = mem_load_s8(RsV); mem_store_u8(RsV, RtV); JUMP(riV); } }"],
     "two-part": ["{ P0 = (RsV > siV) ? 0xff : 0x00; }", "{ if (P0_NEW & 1) { JUMP(riV); } }"],
     "failing": ["{ RdV = RsV; P3 = 1; while (RsV) { } }"],
+    # rejected although nothing was registered yet: the attribute-relevant construct itself fails first
+    "jump-failing": ["{ JUMP(next_pc); }"],
+    "load-failing": ["{ mem_load_u32(addr); }"],
+    "store-failing": ["{ mem_store_u8(addr, 1); }"],
+    "new-failing": ["{ nosuch = PuN; }"],
+    "pred-failing": ["{ P1 = nosuch; }"],
+    "cond-failing": ["{ if (RsV) { nosuch(1); } }"],
     "ternary-no-cond": ["{ RdV = RsV ? RtV : (int32_t)mem_load_s16(RtV); }"],
 }
 NOPED_NAME = "Y4_l2fetch"
